@@ -347,6 +347,12 @@ Definition encode_data (s : st) (is_last force_flush : bool) : outcome (bool * s
           let need := 2 * meta_size + 527 in
           let ssz := N.max (storage_size s1) need in
           let sto := match a_out a with [] => storage s1 | o => o end in
+          (* the back end either leaves the output cursor alone (nothing emitted) or resets it to
+             the start of the storage it filled; its output fits the storage it asked for *)
+          if negb (nextout_eqb (a_no a) (NoDyn 0)) && negb (match a_out a with [] => nextout_eqb (a_no a) (next_out s) | _ => false end)
+          then Mismatch 19
+          else if ssz <? lenN (a_out a) + 3 then Mismatch 28
+          else
           let s2 := upd_out s1 (a_no a) sto ssz (tiny s1) (lenN (a_out a)) (total_out_ s1) in
           let s3 := upd_bits s2 (a_lb a) (a_lbb a) in
           Done (true, upd_pos s3 (input_pos s3) (a_lfp a) (a_lpp a))
@@ -393,6 +399,7 @@ Definition fast_answer (s : st) (is_last force_flush inplace : bool) (block : N)
     else if negb (a_block a =? block) then Mismatch 24
     else if negb (Bool.eqb (a_inplace a) inplace) then Mismatch 25
     else if negb (a_result a) then Mismatch 26
+    else if 2 * block + 503 <? lenN (a_out a) + 3 then Mismatch 27   (* output fits the buffer the code provides *)
     else Done (a, upd_misc s (last_emitted s) rest)
   end.
 
